@@ -4,6 +4,7 @@ import (
 	"context"
 	"fmt"
 	"reflect"
+	"strings"
 	"time"
 
 	"github.com/iden3/go-merkletree-sql/v2"
@@ -88,6 +89,12 @@ func genC13(out *Out, r *Rng, tier string, n int, shard int) {
 		queries := queriesFor(run.Entries, r, 10)
 		orig := observe(mz)
 		bs, err := mz.MarshalBinary()
+		if err != nil && strings.Contains(err.Error(), "Time.MarshalBinary") {
+			// encoding/gob cannot encode an instant whose zone offset is -1 minute (the value gob's time encoding reserves for UTC) or
+			// beyond +-32767 minutes: there is no binary form, so nothing to compare - as long as the refusal is an error
+			out.Emit(Case{Op: "none", In: J{"doc": string(doc)}, Impl: J{"err": "err"}, Prop: &PropRes{OK: true}, Tags: []string{"marshal-refused-by-gob-time"}, NT: false})
+			continue
+		}
 		if err != nil {
 			why = append(why, "MarshalBinary failed: "+err.Error())
 		}
@@ -167,6 +174,9 @@ func genC13(out *Out, r *Rng, tier string, n int, shard int) {
 		for _, e := range run.Entries {
 			e := e
 			b, err := e.MarshalBinary()
+			if err != nil && strings.Contains(err.Error(), "Time.MarshalBinary") {
+				continue
+			}
 			if err != nil {
 				w3 = append(w3, "entry MarshalBinary failed: "+err.Error())
 				continue
